@@ -7,6 +7,7 @@
 #pragma once
 
 #include <pika/config.hpp>
+#include <pika/config/verif_hooks.hpp>
 
 #include <pika/allocator_support/allocator_deleter.hpp>
 #include <pika/allocator_support/internal_allocator.hpp>
@@ -227,6 +228,7 @@ namespace pika::split_tuple_detail {
             // sent by the predecessor have already been stored in the
             // shared state by now.
             os.reset();
+            PIKA_VERIF_POINT("sh.done", this, v.index(), 0);
 
             predecessor_done = true;
 
@@ -266,6 +268,7 @@ namespace pika::split_tuple_detail {
                 std::lock_guard<mutex_type> l{mtx};
             }
 
+            PIKA_VERIF_POINT("sh.run", this, continuations.size(), 0);
             if (!continuations.empty())
             {
                 // We move the continuations to a local variable to
@@ -284,8 +287,10 @@ namespace pika::split_tuple_detail {
         template <std::size_t Index, typename Receiver>
         void add_continuation(Receiver& receiver)
         {
+            PIKA_VERIF_POINT("sh.chk1", this, 0, 0);
             if (predecessor_done)
             {
+                PIKA_VERIF_POST("sh.seen1", this, 1, 0);
                 // If we read predecessor_done here it means that one of
                 // set_error/set_stopped/set_value has been called and
                 // values/errors have been stored into the shared state.
@@ -294,6 +299,7 @@ namespace pika::split_tuple_detail {
             }
             else
             {
+                PIKA_VERIF_POST("sh.seen1", this, 0, 0);
                 // If predecessor_done is false, we have to take the
                 // lock to potentially add the continuation to the
                 // vector of continuations.
@@ -301,6 +307,7 @@ namespace pika::split_tuple_detail {
 
                 if (predecessor_done)
                 {
+                    PIKA_VERIF_POST("sh.seen2", this, 1, 0);
                     // By the time the lock has been taken,
                     // predecessor_done might already be true and we can
                     // release the lock early and call the continuation
@@ -310,6 +317,7 @@ namespace pika::split_tuple_detail {
                 }
                 else
                 {
+                    PIKA_VERIF_POST("sh.seen2", this, 0, 0);
                     // If predecessor_done is still false, we add the
                     // continuation to the vector of continuations. This
                     // has to be done while holding the lock, since
